@@ -451,7 +451,7 @@ def r9(cx):
     flushes = M.find_calls(b, lambda c: c == FLUSH)
     takes = M.find_calls(b, lambda c: c == BUF + "take")
     rets = [bi for bi, blk in enumerate(b.blocks) if blk["term"]["k"] == "return" and not blk.get("cleanup")]
-    if not cx.floor("flush sites in run_flush_timer", len(flushes), 2, ck):
+    if not cx.floor("flush sites in run_flush_timer", len(flushes), 1, ck):
         return
     empties = set()
     for sw in M.bool_switches(b):
